@@ -346,3 +346,7 @@ def run(ctx, report: Report) -> None:
                              f'("abc\\<LF>") is decoded as U+FFFD + LF instead of "abc"' if gid == 3 else
                              f'group {gid} of {name} (the {what} case of the decoder) disagrees with the CSS escape grammar on {d[1]!r}')
 
+    from .sem import trailing_whitespace_table
+    trailing_whitespace_table(ctx, r2)
+
+
